@@ -170,11 +170,19 @@ var (
 // application refills one transaction buffer: a change that remembers the caller's slice between calls (instead of
 // its contents) then sees the same slice with new contents in a later call.
 var dataBufs = map[int][]byte{}
+var bigBufs int
 
 func persistentData(d []byte) []byte {
 	b, ok := dataBufs[len(d)]
 	if !ok {
 		b = make([]byte, len(d))
+		if len(d) > 4096 {
+			if bigBufs >= 48 {
+				copy(b, d)
+				return b // enough large buffers kept alive in this process
+			}
+			bigBufs++
+		}
 		dataBufs[len(d)] = b
 	}
 	copy(b, d)
@@ -221,6 +229,16 @@ func (c *foreignCtx) cancel() {
 		close(c.done)
 	})
 }
+
+// neverCtx is a caller's own context type that can never be cancelled (nil Done channel), like context.Background().
+type neverCtx struct{}
+
+func (neverCtx) Deadline() (time.Time, bool) { return time.Time{}, false }
+func (neverCtx) Done() <-chan struct{}       { return nil }
+func (neverCtx) Err() error                  { return nil }
+func (neverCtx) Value(any) any               { return nil }
+
+type neverKey struct{}
 
 // run state shared by the helpers below (root goroutine only)
 type world struct {
@@ -288,6 +306,19 @@ func eligible(t Trigger, w *world, parked []kernel.Enabled) bool {
 
 // Run executes one simulated Mine call. choices != nil replays a recorded schedule.
 func Run(t *testing.T, cfg *Config, choices []int, replayMode bool, journal func(step, who int, site string)) (end proto.End) {
+	if cfg.Before != nil {
+		// the call made before the judged one: always under its own seeded strategy (it is part of the configuration,
+		// not of the recorded schedule); judged like any other call
+		if pre := Run(t, cfg.Before, nil, false, nil); pre.Class != "" {
+			pre.Message = "in the call made just before the judged one: " + pre.Message
+			return pre
+		}
+		defer func() {
+			if end.Probes != nil {
+				end.Probes["call_preceded_by_a_related_call"] = 1
+			}
+		}()
+	}
 	w := &world{cfg: cfg, replay: replayMode, faults: map[string]int{}, probes: map[string]int{}, passed: map[string]int{}, seen: map[string]bool{}, found: map[int]bool{}, hadBatch: map[int]bool{}}
 	w.res.Tags = map[string]string{}
 	w.journal, w.verbose = journal, journal != nil
@@ -344,7 +375,24 @@ func (w *world) simulate(choices []int) {
 	hasDeadline := !cfg.Background && (cfg.Fault.Kind == "deadline" || cfg.Fault.Kind == "both")
 	switch {
 	case cfg.Background:
-		ctx = context.Background()
+		// contexts that can never be cancelled: Done() is nil. context.Background() is only one of them.
+		switch cfg.NeverDone {
+		case "todo":
+			ctx = context.TODO()
+		case "value":
+			ctx = context.WithValue(context.Background(), neverKey{}, "v")
+		case "withoutcancel":
+			parent, pc := context.WithCancel(context.Background())
+			ctx = context.WithoutCancel(parent)
+			pc() // the parent's cancellation must not reach it
+		case "own":
+			ctx = neverCtx{}
+		default:
+			ctx = context.Background()
+		}
+		if cfg.NeverDone != "" {
+			w.probes["never_cancellable_context_other_than_background"] = 1
+		}
 	case hasDeadline:
 		var c1 context.CancelFunc
 		ctx, c1 = context.WithDeadline(context.Background(), start.Add(deadlineBase+time.Duration(cfg.Fault.DeadlineMs)*time.Millisecond))
@@ -1012,12 +1060,32 @@ func (w *world) judgeNonce(st *stub) {
 // may hold a nonce whose difficulty strictly exceeds len*target.
 func (w *world) judgePassOver(st *stub, n uint64, p *big.Int) {
 	limit := 64 * (n / 64)
+	data := w.cfg.data()
+	cc := w.cfg.craftCtx()
+	if st != nil && st.plan.DecoyPerMille == 0 && !st.plan.AllQualify && cc.z >= 2 {
+		// an oracle without decoys: the background hash of every nonce has a non-zero top trit and can never qualify, so
+		// the planted nonces are the only ones to look at — exact, however deep the returned nonce lies
+		for _, sp := range st.plan.Specials {
+			if sp.Nonce >= limit {
+				continue
+			}
+			trits := st.Trits(sp.Nonce)
+			if ref.V2Classify(trits, p) == ref.V2Clear {
+				w.violate("passed-over", fmt.Sprintf("v2 Mine(target=%d, len %d, 1 worker) returned nonce %d (block %d) but nonce %d in the earlier block %d has difficulty %v > len*target = %v (%d trailing zeros, sufficient %d)",
+					w.cfg.TargetBits, w.cfg.msgLen(), n, n/64, sp.Nonce, sp.Nonce/64, ref.Difficulty(trits), p, ref.TrailingZeros(trits), cc.z), map[string]any{"version": 2, "hash": w.cfg.Hash})
+				return
+			}
+		}
+		w.probes["passover_checked"] = 1
+		if limit > 1<<16 {
+			w.probes["passover_checked_beyond_1000_blocks"] = 1
+		}
+		return
+	}
 	if limit > 1<<16 {
 		w.probes["passover_scan_truncated"] = 1
 		limit = 1 << 16
 	}
-	data := w.cfg.data()
-	cc := w.cfg.craftCtx()
 	for m := uint64(0); m < limit; m++ {
 		if m%256 == 0 {
 			kernel.Progress.Add(1)
@@ -1077,6 +1145,9 @@ func (w *world) finish() {
 	}
 	if cfg.Crowd > 1 {
 		w.res.Tags["special"] = "crowd"
+	}
+	if strings.HasPrefix(cfg.TargetNote, "deep-passover") {
+		w.res.Tags["special"] = "deep-passover"
 	}
 	if cfg.BigData > 0 {
 		w.probes["payload_of_64KiB_to_5MiB"] = 1
